@@ -1657,3 +1657,57 @@ fn test_poly_prepare0() {
         }
     }
 }
+
+// ---------------------------------------------------------------------------
+// Verification hooks (add-only, compiled only with `--cfg yamaquasi_verif`).
+
+#[cfg(yamaquasi_verif)]
+impl Poly {
+    /// Coefficients (a, b, c) as stored.
+    pub fn verif_abc(&self) -> (I256, I256, I256) {
+        (self.a, self.b, self.c)
+    }
+    /// The crate-private `eval`.
+    pub fn verif_eval(&self, x: i64) -> (I256, I256) {
+        self.eval(x)
+    }
+    /// The two root tables handed to the sieve.
+    pub fn verif_roots(&self) -> (&[u32], &[u32]) {
+        (&self.r1p[..], &self.r2p[..])
+    }
+    pub fn verif_idx(&self) -> usize {
+        self.idx
+    }
+    pub fn verif_is_type2(&self) -> bool {
+        self.kind == PolyType::Type2
+    }
+    /// The rounded root hint given to `Sieve::smooths`.
+    pub fn verif_root_hint(&self) -> u32 {
+        self.root
+    }
+}
+
+#[cfg(yamaquasi_verif)]
+impl<'a> A<'a> {
+    pub fn verif_a(&self) -> Uint {
+        self.a
+    }
+    pub fn verif_factor_primes(&self) -> Vec<u64> {
+        self.factors.iter().map(|f| f.p).collect()
+    }
+    pub fn verif_factors_idx(&self) -> Vec<usize> {
+        self.factors_idx.to_vec()
+    }
+}
+
+/// (fb_size, interval_size, nfactors, a_value_count) as `siqs()` selects them for the
+/// (already multiplied) input `n`.
+#[cfg(yamaquasi_verif)]
+pub fn verif_c12_params(n: &Uint, use_double: bool) -> (u32, u32, u32, usize) {
+    (
+        fb_size(n, use_double),
+        interval_size(n, use_double),
+        nfactors(n),
+        a_value_count(n),
+    )
+}
